@@ -343,6 +343,8 @@ func runDecodeOwnership(c *core.Case) {
 
 // marshal results stay stable ---------------------------------------------------------------
 
+var scalarTops = []any{"a top-level string", 12345, -1.5, true, false, nil, json.Number("77"), "", "<&>", strings.Repeat("long", 300)}
+
 func runMarshalStability(c *core.Case) {
 	c.Journal("marshal-stability")
 	r := c.Rng
@@ -370,6 +372,14 @@ func runMarshalStability(c *core.Case) {
 		e.Encode(v.Interface())
 		results = append(results, buf.Bytes())
 		snaps = append(snaps, append([]byte(nil), buf.Bytes()...))
+		// MarshalIndent and Append results belong to the caller as well; top-level scalars
+		// included (nothing to indent)
+		for _, x := range []any{v.Interface(), scalarTops[(c.Index+k)%len(scalarTops)]} {
+			if mi, err := json.MarshalIndent(x, core.Pick(r, []string{"", ">"}), core.Pick(r, []string{"", " ", "\t"})); err == nil {
+				results = append(results, mi)
+				snaps = append(snaps, append([]byte(nil), mi...))
+			}
+		}
 		if k == 0 {
 			// concurrent readers of the results while the library keeps working: a library write
 			// into handed-out memory is a data race the race build reports
@@ -404,8 +414,8 @@ func runMarshalStability(c *core.Case) {
 			return
 		}
 	}
-	if !bytes.Equal(results[0], results[2]) || !bytes.Equal(results[2], results[4]) {
-		c.Violation("marshal-stability", "remarshal-diff", fmt.Sprintf("marshalling the same value again gave different bytes: %q vs %q", tr(results[0]), tr(results[4])), map[string]any{"type": jtypes.TypeString(t)})
+	if again, err := json.Marshal(v.Interface()); err != nil || !bytes.Equal(results[0], again) {
+		c.Violation("marshal-stability", "remarshal-diff", fmt.Sprintf("marshalling the same value again gave different bytes: %q vs %q", tr(results[0]), tr(again)), map[string]any{"type": jtypes.TypeString(t)})
 	}
 	c.Count("marshal.results", len(results))
 	c.Distinct(core.Mix(core.HashString(t.String()), core.HashBytes(results[0])), len(results[0]) > 2)
@@ -833,6 +843,60 @@ func runReusedDestination(c *core.Case) {
 	c.Distinct(core.Mix(core.HashBytes(doc1), core.HashBytes(doc2)), true)
 }
 
+// raw literals: null / true / false decoded into RawMessage destinations are copies like any other
+// raw value: the caller may write into one result without changing another, or what is decoded next.
+func runRawLiterals(c *core.Case) {
+	c.Journal("raw-literals")
+	r := c.Rng
+	lits := []string{"null", "true", "false", "0", `""`, "[]", "{}"}
+	var parts []string
+	for n := r.Range(2, 8); n > 0; n-- {
+		parts = append(parts, lits[r.Intn(len(lits))])
+	}
+	doc := []byte("[" + strings.Join(parts, ",") + "]")
+	decode := func(how int) ([]json.RawMessage, error) {
+		var out []json.RawMessage
+		var err error
+		switch how {
+		case 0:
+			err = json.Unmarshal(doc, &out)
+		case 1:
+			_, err = json.Parse(append([]byte(nil), doc...), &out, 0)
+		default:
+			err = json.NewDecoder(bytes.NewReader(doc)).Decode(&out)
+		}
+		return out, err
+	}
+	how := c.Index % 3
+	first, err := decode(how)
+	if err != nil || len(first) != len(parts) {
+		c.Violation("raw-literals", "decode-error", fmt.Sprintf("decoding %s into []RawMessage: %v (%d elements)", doc, err, len(first)), nil)
+		return
+	}
+	second, _ := decode((how + 1) % 3)
+	// the caller recycles the first result: writes into its bytes
+	for _, m := range first {
+		for i := range m {
+			m[i] = 'X'
+		}
+	}
+	third, _ := decode(how)
+	for name, res := range map[string][]json.RawMessage{"decoded before the write": second, "decoded after the write": third} {
+		for i := range parts {
+			if i >= len(res) || string(res[i]) != parts[i] {
+				got := "missing"
+				if i < len(res) {
+					got = string(res[i])
+				}
+				c.Violation("raw-literals|"+parts[i], "shared-with-another-result", fmt.Sprintf("after the caller overwrote the bytes of one decoded []RawMessage, element %d of another one (%s) reads %q, want %q (document %s)", i, name, got, parts[i], doc), map[string]any{"doc": string(doc)})
+				return
+			}
+		}
+	}
+	c.Count("raw-literals.docs", 1)
+	c.Distinct(core.Mix(core.HashBytes(doc), uint64(how)), true)
+}
+
 // after failures: encodes that fail half-way (holding pooled buffers) followed by encodes that
 // use two buffers at once; outputs obtained earlier keep their contents.
 func runAfterFailures(c *core.Case) {
@@ -1113,7 +1177,7 @@ func runTokenizerOwnership(c *core.Case) {
 func init() {
 	core.Register(&core.Monitor{
 		Prop:    "C10",
-		Rule:    "decode-ownership: a document (a struct covering strings, a >64-byte field name, Number, RawMessage, []byte, five map kinds, interfaces, ',string'; or a generated type), optionally re-spelled with upper-case keys and \\u escapes or mutated, is placed inside a canary-filled backing array and parsed under a rotating subset of the 9 public ParseFlags: the whole backing array must be unchanged; every string/Number/RawMessage/[]byte/map-key leaf (len>=2) of the result is classified by address as inside or outside the input buffer and may be inside only under its own DontCopy flag; without zero-copy flags the input is then overwritten with 0xAA, a burst of Marshal/Encode/Unmarshal/Tokenizer/Decoder calls runs on 5 goroutines and the value must still equal a reference decode. marshal-stability: results of Marshal/Encoder are snapshotted, concurrently read while bursts run (race build) and re-compared; re-marshalling gives identical bytes. decoder-stability: 20-400 records (some 4-40 KB), or 200-3000 bare values decoded into top-level *RawMessage / *Number / *string / *any targets, through Decoder with chunked readers; every earlier record must keep its contents after all later Decode calls. key-fragments: struct types whose field names need HTML escaping are encoded eight times in a random order of EscapeHTML on/off, every output compared with encoding/json's for that mode. tokenizer-ownership: String()/Unquote results and AppendUnescape. Distinct by (document, flags). zero-copy-decoders: a Decoder with each non-empty subset of the three DontCopy options over a short stream read to io.EOF; afterwards other Decoders run on this and other goroutines and the decoded records must keep their contents. lent-marshaler-output: MarshalJSON / MarshalText return a slice of a bigger canary-filled buffer with spare capacity (top level, by pointer, in slices, maps and fields) through Marshal, Encoder.Encode twice and Append: the buffer is unchanged right after the call, after later calls on the same goroutine and after a burst on others. map-keys: objects with duplicate member names into fresh, nil and long-lived map[string]any targets (Unmarshal, Parse, twice into the same map, a Decoder that goes on reading 70 KB): after the input is overwritten the map equals encoding/json's and every key can be looked up. reused-destination: a destination filled by a ZeroCopy Parse is decoded into again without flags: the earlier input is unchanged, the value is the second document's and survives the reuse of its input. after-failures: 1-3 encodes that fail half-way, then Marshal / Encoder over marshalers that call Marshal: bytes equal to encoding/json's, earlier outputs unchanged.",
+		Rule:    "decode-ownership: a document (a struct covering strings, a >64-byte field name, Number, RawMessage, []byte, five map kinds, interfaces, ',string'; or a generated type), optionally re-spelled with upper-case keys and \\u escapes or mutated, is placed inside a canary-filled backing array and parsed under a rotating subset of the 9 public ParseFlags: the whole backing array must be unchanged; every string/Number/RawMessage/[]byte/map-key leaf (len>=2) of the result is classified by address as inside or outside the input buffer and may be inside only under its own DontCopy flag; without zero-copy flags the input is then overwritten with 0xAA, a burst of Marshal/Encode/Unmarshal/Tokenizer/Decoder calls runs on 5 goroutines and the value must still equal a reference decode. marshal-stability: results of Marshal/Encoder are snapshotted, concurrently read while bursts run (race build) and re-compared; re-marshalling gives identical bytes. decoder-stability: 20-400 records (some 4-40 KB), or 200-3000 bare values decoded into top-level *RawMessage / *Number / *string / *any targets, through Decoder with chunked readers; every earlier record must keep its contents after all later Decode calls. key-fragments: struct types whose field names need HTML escaping are encoded eight times in a random order of EscapeHTML on/off, every output compared with encoding/json's for that mode. tokenizer-ownership: String()/Unquote results and AppendUnescape. Distinct by (document, flags). zero-copy-decoders: a Decoder with each non-empty subset of the three DontCopy options over a short stream read to io.EOF; afterwards other Decoders run on this and other goroutines and the decoded records must keep their contents. lent-marshaler-output: MarshalJSON / MarshalText return a slice of a bigger canary-filled buffer with spare capacity (top level, by pointer, in slices, maps and fields) through Marshal, Encoder.Encode twice and Append: the buffer is unchanged right after the call, after later calls on the same goroutine and after a burst on others. map-keys: objects with duplicate member names into fresh, nil and long-lived map[string]any targets (Unmarshal, Parse, twice into the same map, a Decoder that goes on reading 70 KB): after the input is overwritten the map equals encoding/json's and every key can be looked up. reused-destination: a destination filled by a ZeroCopy Parse is decoded into again without flags: the earlier input is unchanged, the value is the second document's and survives the reuse of its input. after-failures: 1-3 encodes that fail half-way, then Marshal / Encoder over marshalers that call Marshal: bytes equal to encoding/json's, earlier outputs unchanged. marshal-stability also keeps MarshalIndent results, top-level scalars included. raw-literals: null/true/false/0/\"\"/[]/{} decoded into []RawMessage (Unmarshal, Parse, Decoder): after the caller overwrites one result, results decoded before and after still read as the document says.",
 		Trusted: []string{"address-range classification via reflect/unsafe in the harness", "encoding/json for reference decodes", "Go race detector for library writes into handed-out memory (race build)"},
 		Subs: []core.Sub{
 			{Name: "decode-ownership", N: core.Const(6000, 300000), Run: runDecodeOwnership},
@@ -1123,6 +1187,7 @@ func init() {
 			{Name: "lent-marshaler-output", N: core.Const(192, 1920), Run: runLentOutput},
 			{Name: "map-keys", N: core.Const(800, 30000), Run: runMapKeys},
 			{Name: "reused-destination", N: core.Const(300, 9000), Run: runReusedDestination},
+			{Name: "raw-literals", N: core.Const(300, 9000), Run: runRawLiterals, Modes: []string{"plain"}},
 			{Name: "after-failures", N: core.Const(200, 6000), Run: runAfterFailures, Modes: []string{"plain"}},
 			{Name: "key-fragments", N: core.Const(600, 20000), Run: runKeyFragments},
 			{Name: "tokenizer-ownership", N: core.Const(4000, 200000), Run: runTokenizerOwnership},
